@@ -47,6 +47,11 @@ def _match_finding(findings, prop, fn, ob):
             continue
         if m.get("kind") and m["kind"] != ob["kind"]:
             continue
+        if f.get("region"):
+            # the failure must vanish once the recorded failing region is excluded; otherwise it is a
+            # different violation of the same clause and is reported
+            if (ob.get("outside_region") or {}).get(f["region"]) != "proved":
+                continue
         return f
     return None
 
@@ -204,9 +209,12 @@ def run_check(args):
     # native failures of clauses the prover discharged: unsound encoding or contract error -> exit 3
     proved_texts = set()
     failed_texts = set(ob["text"] for _, ob in failed) | set(ob["text"] for _, ob in unknown)
+    failing_functions = set("%s:%s" % (r["rel"], r["qual"]) for r, _ in failed + unknown)
     for name, fl in native_fail:
+        if name.split("[case")[0] in failing_functions:
+            continue        # the prover already refutes an obligation of this function
         unexplained = [t for t in fl.get("failed_clauses", []) if not any(t in ft or ft in t for ft in failed_texts)]
-        if unexplained and not any(k for k in known):
+        if unexplained:
             crashes.append("native cross-check: clause false on the real function but not refuted by the prover "
                            "(unsound encoding or contract error): %s %s inputs=%s"
                            % (name, unexplained, json.dumps(fl.get("inputs"))[:400]))
@@ -226,9 +234,12 @@ def run_check(args):
         for c in cs:
             if not c.verify and prop in c.prop.split(","):
                 trusted.append("assumed (not verified) contract: %s:%s %s" % (c.rel, c.qual, c.note))
+    n_known = len(known)
     cov = {
-        "obligations": total,
+        "obligations": total - n_known,
         "discharged": discharged,
+        "obligations_generated": total,
+        "known_finding_obligations": sorted(ob["name"] for _, ob in known),
         "checker_cmd": "python3-vt -m pyvc.run %s --tier %s  (z3 5.1.0 API rlimit; cvc5 1.0.3 and z3 4.8.12 on unknowns)"
                        % (prop, args.tier),
         "trusted_base": ["pyvc VC generator (/verif/pyvc)", "z3 5.1.0", "cvc5 1.0.3", "z3 4.8.12",
